@@ -214,19 +214,43 @@ def confirm_failures(prop, res):
     return confirmed
 
 
+PROBE_ERRORS = []
+
+
 def probe_known(prop):
     """Replays the recorded failing case of every open finding of `prop`; prints a KNOWN-FINDING line for each
-    one that still fails (a finding that no longer reproduces prints nothing)."""
+    one that still fails (a finding that no longer reproduces prints nothing). A probe file the harness cannot
+    parse is a harness error, never a reproduction."""
     hits = []
     for f in open_findings(prop):
         pr = f.get("probe")
         if not pr:
             continue
         exe = ensure_built([pr["harness"]])[pr["harness"]]
-        path = os.path.join(VERIF, pr["replay"])
         fails = 0
+        if "probe_id" in pr:
+            # the failing case is built in code by the harness (`--probe <id>`): PROBE-FAIL = still reproduces
+            for _ in range(2):
+                env = dict(os.environ)
+                env.update(SAN_ENV)
+                env.update({"VERIF_OPEN": "", "VERIF_PROP": prop, "VERIF_OUT": ""})
+                try:
+                    r = subprocess.run([exe, "--mode", pr.get("mode", ""), "--probe", pr["probe_id"]], env=env,
+                                       capture_output=True, text=True, errors="replace", timeout=900)
+                    if "PROBE-PASS" not in r.stdout:
+                        fails += 1
+                except subprocess.TimeoutExpired:
+                    fails += 1
+            if fails == 2:
+                print("KNOWN-FINDING: property=%s %s: %s" % (prop, f["id"], f["description"]))
+                hits.append(f["id"])
+            continue
+        path = os.path.join(VERIF, pr["replay"])
         for _ in range(2):
             ok, out = replay_once(exe, pr["mode"], path, timeout=900)
+            if "bad replay tokens" in (out or "") or not os.path.exists(path):
+                PROBE_ERRORS.append("probe %s of finding %s cannot be parsed by harness %s" % (pr["replay"], f["id"], pr["harness"]))
+                break
             if ok is not True:
                 fails += 1
         if fails == 2:
@@ -254,6 +278,7 @@ def finish(prop, tier, res, t0, level="exploration", assumptions=None):
         print("  (%s/%s) %s" % (hname, mode, msg[:500]))
     if confirmed:
         return 1
+    res.harness_errors = list(res.harness_errors) + PROBE_ERRORS
     if res.harness_errors:
         sys.stderr.write("HARNESS ERROR (not a verdict about the property):\n" + "\n".join(res.harness_errors) + "\n")
         return 2
@@ -273,14 +298,15 @@ def check_c08(tier):
     run_shards(res, "C08", "c08_symbols", exe, "c08", tier, 16, cases)
     res.required_classes = ["scheme_tagged", "scheme_raw", "second_block", "components_4", "maxbits_25_32"]
     return finish("C08", tier, res, t0,
-                  assumptions=["magnitudes above the stated memory cap are not generated for the raw scheme "
-                               "(the encoder allocates O(max value) counters)",
+                  assumptions=["magnitudes above 2^22 (quick) / 2^27 (thorough) are not generated for the forced raw "
+                               "scheme (the raw coder allocates O(max value) counters); counted",
                                "lengths up to 5000 (quick) / 100000 (thorough)"])
 
 
-GEOM_ASSUME = ["quantization above 26 bits only through explicit boxes with data near the origin, 32-bit integer "
-               "values within 2^21 (quick) / 2^26 (thorough): the encoder's entropy estimate costs O(largest symbol) "
-               "memory and time",
+GEOM_ASSUME = ["values above 2^24 (quantization with 25..30 bits, wide 32-bit integers) are kept on the prediction "
+               "schemes none / difference / parallelogram, 32-bit integers over their full range on none / difference: "
+               "the other predictors overflow int32/int64 intermediates there (undefined behaviour outside the listed "
+               "properties, which UBSan would report); counted as wide_values_* / int32_full_range_values",
                "open known findings are avoided by construction (see open_findings_excluded_by_construction and "
                "the excluded_* class counters)"]
 
@@ -404,8 +430,8 @@ def check_c20(tier):
     return check_simple("C20", "c20_animation", "c20", tier, 1500, 15000,
                         ["quantized_tracks", "raw_float_tracks", "integer_tracks", "timestamps_first",
                          "timestamps_between", "timestamps_last", "tracks_0", "tracks_8"],
-                        ["quantization bits above 22 (24 thorough) and 32-bit integers above 2^21 are not generated "
-                         "(cost of the symbol coder's entropy estimate)"])
+                        ["32-bit integer tracks whose values span INT32_MAX or more may be refused by the encoder "
+                         "(counted as encode errors)"])
 
 
 def check_c14(tier):
